@@ -98,10 +98,17 @@ PROPS["C08"] = P(
 
 PROPS["C09"] = P(
     "at every transport send in every step of every operation both stores have no open transaction, and "
-    "every operation ends clean on every path (with and without usage store)",
+    "every operation ends clean on every path (with and without usage store); the usage summaries called "
+    "between the deletes and the commits are total functions of 0..4 side rows (a raise there would leave "
+    "the transaction open)",
     lambda tier: all_ops(tier, ["C09."]) +
                  (all_ops(tier, ["C09."], usage="plain") if tier == "thorough" else usage_ops_late(tier, "plain", ["C09."])) +
-                 [db_task("db.create_crash", dict(name=n, entry="upgrade"), ["C09.pragmas"]) for n in ("channel", "usage")])
+                 [db_task("db.create_crash", dict(name=n, entry="upgrade"), ["C09.pragmas"]) for n in ("channel", "usage")] +
+                 # a usage summary that raised would leave the deletes before it uncommitted: the real
+                 # summary functions are total on 1..4 (0..4) side rows of any content
+                 [dict(ob="kernel.summarize_mailbox", params=dict(n=n), want=["C09."])
+                  for n in ((0, 1, 2, 3, 4) if tier == "thorough" else (0, 1, 2, 3))] +
+                 [dict(ob="kernel.summarize_nameplate", params=dict(n=n), want=["C09."]) for n in (1, 2, 3, 4)])
 
 PROPS["C17"] = P(
     "arbitrary JSON object (symbolic key presence, symbolic string values, two junk keys) on a connection in "
